@@ -15,6 +15,13 @@
 (* Values: strings (integers are their decimal strings), hashes over the   *)
 (* field names Mem, lists of strings, sets over Mem, sorted sets over Mem  *)
 (* with integer scores.  Expiry in whole model seconds.                    *)
+(* A string is a text of the finite domain TextDom or - as soon as a       *)
+(* bitmap command has produced bytes that are no such text - a sequence of *)
+(* bits (8 per byte, most significant first: Redis' bit numbering); the    *)
+(* bitmap commands see the bits of either form.  HyperLogLogs are modelled *)
+(* by the exact set of the added elements (small sets: the estimate is     *)
+(* exact), the server's script cache by one flag per fixed script, the     *)
+(* SCAN family by complete iterations (cursor 0 until cursor 0 again).     *)
 (*                                                                         *)
 (* A command is a record c with c.op and its arguments; Step(c) is the     *)
 (* pure step function  state -> [ks, exp, r];  r = [err, v].               *)
@@ -26,7 +33,7 @@ CONSTANTS Keys,      \* key names
           R,         \* integers handled by INCR-like commands are in -R..R
           MaxList,   \* longest list
           \* the command universe offered by Next (generation bounds)
-          Fams,      \* subset of {"str", "key", "hash", "list", "set", "zset"}
+          Fams,      \* subset of {"str", "key", "hash", "list", "set", "zset", "pipe", "bit", "hll", "script", "scan"}
           VS,        \* string values / hash values / list elements
           SecS,      \* TTL seconds
           NS,        \* signed increments
@@ -36,16 +43,23 @@ CONSTANTS Keys,      \* key names
           SizeS,     \* sizes of the ...AndLimit methods
           MaxAdv,    \* largest clock step (0: the clock stands still)
           KVOnly,    \* TRUE: only commands that kv.Store offers (single-key commands, multi-key Del)
-          PipeLens   \* lengths of the pipelines offered by family "pipe"
+          PipeLens,  \* lengths of the pipelines offered by family "pipe"
+          BitOffS,   \* bit offsets of SetBit / GetBit
+          ByteIdxS,  \* byte indices (start / end) of BitCount / BitPos
+          HE,        \* elements added to HyperLogLogs
+          CountS,    \* COUNT hints of the scan family
+          TextBytes, \* [text -> its bytes], the ASCII encoding of every text a string key can hold (VS and -R..R)
+          Scripts    \* [script name -> [src |-> Lua source, sha |-> its SHA-1 in hex]] for the names in ScriptNames
 
 VARIABLES ks,        \* [Keys -> typed value]
           exp,       \* [Keys -> Nat]  absolute second of expiry, 0 = none
           clock,     \* model seconds
           pipe,      \* pipeline in progress: [n |-> commands still to come, of |-> its length, err |-> first error]
+          scr,       \* the server's script cache: [ScriptNames -> {"none", "loaded", "evalfail"}]
           out        \* last command with its reply
 
-vars == <<ks, exp, clock, pipe, out>>
-core == <<ks, exp, clock, pipe>>
+vars == <<ks, exp, clock, pipe, scr, out>>
+core == <<ks, exp, clock, pipe, scr>>
 
 Members == {Mem[i] : i \in 1..Len(Mem)}
 RankOf(m) == CHOOSE i \in 1..Len(Mem) : Mem[i] = m
@@ -55,6 +69,7 @@ NoScore == 9999       \* sorted-set member absent
 NumStr == {ToString(i) : i \in (0 - R)..R}
 IntOf == [s \in NumStr |-> CHOOSE i \in (0 - R)..R : ToString(i) = s]
 IsNum(s) == s \in NumStr
+IsNumV(val) == "s" \in DOMAIN val /\ IsNum(val.s)      \* a string value that is a decimal integer text
 
 NoPipe == [n |-> 0, of |-> 0, err |-> ""]
 None == [t |-> "none"]
@@ -64,10 +79,40 @@ List(l) == [t |-> "list", l |-> l]
 SetV(m) == [t |-> "set", m |-> m]
 ZSet(z) == [t |-> "zset", z |-> z]
 
+\* m: the exact set of the elements added so far; c: ghost of the environment - a PFCOUNT has been served since
+\* the key was created (see MiniredisPfaddReportsKnownElementsAfterCount)
+Hll(m, c) == [t |-> "hll", m |-> m, c |-> c]
+
 EmptyH == [f \in Members |-> NoVal]
 EmptyZ == [m \in Members |-> NoScore]
 
+(* ----------------------------------------------------------- strings as bits *)
+\* bit 0 of a string is the most significant bit of its first byte
+ByteBits(n) == [j \in 1..8 |-> (n \div (2 ^ (8 - j))) % 2]
+BitsOfBytes(bs) == [i \in 1..(8 * Len(bs)) |-> ByteBits(bs[((i - 1) \div 8) + 1])[((i - 1) % 8) + 1]]
+ByteAt(b, i) == b[8 * i - 7] * 128 + b[8 * i - 6] * 64 + b[8 * i - 5] * 32 + b[8 * i - 4] * 16
+                + b[8 * i - 3] * 8 + b[8 * i - 2] * 4 + b[8 * i - 1] * 2 + b[8 * i]
+BytesOfBits(b) == [i \in 1..(Len(b) \div 8) |-> ByteAt(b, i)]
+TextDom == DOMAIN TextBytes
+ASSUME VS \cup NumStr \subseteq TextDom
+BitsOf == [s \in TextDom |-> BitsOfBytes(TextBytes[s])]
+\* a string value that is no text of TextDom
+Bin(b) == [t |-> "str", b |-> b]
+IsBin(val) == val.t = "str" /\ "b" \in DOMAIN val
+\* the string value with the given bits, in its normal form: a text wherever the bits spell one
+StrOfBits(b) == IF \E s \in TextDom : BitsOf[s] = b THEN Str(CHOOSE s \in TextDom : BitsOf[s] = b) ELSE Bin(b)
+BitsOfVal(val) == IF IsBin(val) THEN val.b ELSE BitsOf[val.s]
+\* a string value as a reply: the text, or its bytes
+SRep(val) == IF IsBin(val) THEN [bytes |-> BytesOfBits(val.b)] ELSE val.s
+\* a byte string that may be the decimal form of an integer outside the model's range -R..R
+MaybeIntBin(val) == IsBin(val) /\ \A i \in 1..(Len(val.b) \div 8) : ByteAt(val.b, i) \in {45} \cup (48..57)
+
+ScriptNames == {"sget", "sset", "sincr"}
+
 T(k) == ks[k].t
+SBits(k) == IF T(k) = "str" THEN BitsOfVal(ks[k]) ELSE <<>>
+PF(k) == IF T(k) = "hll" THEN ks[k].m ELSE {}
+PFCounted(k) == T(k) = "hll" /\ ks[k].c
 H(k) == IF T(k) = "hash" THEN ks[k].h ELSE EmptyH
 L(k) == IF T(k) = "list" THEN ks[k].l ELSE <<>>
 S(k) == IF T(k) = "set" THEN ks[k].m ELSE {}
@@ -88,6 +133,7 @@ Ok(v)  == [err |-> "", v |-> v]
 NilErr == [err |-> "nil", v |-> 0]
 WT     == [err |-> "wrongtype", v |-> 0]
 NotInt == [err |-> "notint", v |-> 0]
+NoScript == [err |-> "noscript", v |-> 0]
 
 Res(k2, e2, r) == [ks |-> k2, exp |-> e2, r |-> r]
 Same(r) == Res(ks, exp, r)
@@ -129,21 +175,21 @@ Page(s, page, size) == Pick(s, {i \in 1..Len(s) : page * size < i /\ i <= page *
 (* ----------------------------------------------------------- the step function *)
 StrStep(c) ==
   LET k == c.k IN
-  CASE c.op = "get" -> IF T(k) = "none" THEN Same(Ok("")) ELSE IF T(k) = "str" THEN Same(Ok(ks[k].s)) ELSE Same(WT)
+  CASE c.op = "get" -> IF T(k) = "none" THEN Same(Ok("")) ELSE IF T(k) = "str" THEN Same(Ok(SRep(ks[k]))) ELSE Same(WT)
     [] c.op = "set" -> New(k, Str(c.v), 0, Ok(0))
     [] c.op = "setex" -> New(k, Str(c.v), clock + c.sec, Ok(0))
     [] c.op = "setnx" -> IF T(k) = "none" THEN New(k, Str(c.v), 0, Ok(TRUE)) ELSE Same(Ok(FALSE))
     [] c.op = "setnxex" -> IF T(k) = "none" THEN New(k, Str(c.v), clock + c.sec, Ok(TRUE)) ELSE Same(Ok(FALSE))
     [] c.op = "getset" -> IF T(k) = "none" THEN New(k, Str(c.v), 0, Ok(""))
-                          ELSE IF T(k) = "str" THEN New(k, Str(c.v), 0, Ok(ks[k].s)) ELSE Same(WT)
+                          ELSE IF T(k) = "str" THEN New(k, Str(c.v), 0, Ok(SRep(ks[k]))) ELSE Same(WT)
     [] c.op = "incrby" ->   \* Incr, IncrBy, Decr, DecrBy: c.n is the signed increment
          IF ~Is(k, "str") THEN Same(WT)
-         ELSE IF T(k) = "str" /\ ~IsNum(ks[k].s) THEN Same(NotInt)
+         ELSE IF T(k) = "str" /\ ~IsNumV(ks[k]) THEN Same(NotInt)
          ELSE LET cur == IF T(k) = "none" THEN 0 ELSE IntOf[ks[k].s]
               IN Res([ks EXCEPT ![k] = Str(ToString(cur + c.n))], exp, Ok(cur + c.n))
 
 KeyStep(c) ==
-  CASE c.op = "mget" -> Same(Ok([i \in 1..Len(c.ks) |-> IF T(c.ks[i]) = "str" THEN ks[c.ks[i]].s ELSE ""]))
+  CASE c.op = "mget" -> Same(Ok([i \in 1..Len(c.ks) |-> IF T(c.ks[i]) = "str" THEN SRep(ks[c.ks[i]]) ELSE ""]))
     [] c.op = "del" -> Res([k \in Keys |-> IF k \in Range(c.ks) THEN None ELSE ks[k]],
                            [k \in Keys |-> IF k \in Range(c.ks) THEN 0 ELSE exp[k]],
                            Ok(Cardinality({k \in Range(c.ks) : T(k) # "none"})))
@@ -271,7 +317,108 @@ ZStep(c) ==
     [] c.op = "zremrangebyrank" ->
          LET ms == {asc[i] : i \in Idx(n, c.start, c.stop)} IN Upd(k, ZSet(Without(z, ms)), Ok(Cardinality(ms)))
 
+(* ----------------------------------------------------------- bitmaps *)
+\* The bytes (1-based positions) that BITCOUNT / BITPOS key start end look at in a string of n bytes:
+\* negative indices count from the end, both ends are clamped into the string (Redis: bitops.c).
+ByteRange(n, start, end) ==
+  LET a == Max2(IF start < 0 THEN n + start ELSE start, 0)
+      b == Min2(Max2(IF end < 0 THEN n + end ELSE end, 0), n - 1)
+  IN {i \in 1..n : a + 1 <= i /\ i <= b + 1}
+MinOf(P) == CHOOSE p \in P : \A q \in P : p <= q
+
+BitStep(c) ==
+  IF c.op \in {"bitopand", "bitopor", "bitopxor", "bitopnot"}
+    THEN IF \E i \in 1..Len(c.ks) : ~Is(c.ks[i], "str") THEN Same(WT)
+         ELSE LET src == [i \in 1..Len(c.ks) |-> SBits(c.ks[i])]
+                  n == IF Len(c.ks) = 1 THEN Len(src[1]) ELSE Max2(Len(src[1]), Len(src[2]))
+                  ones(p) == Cardinality({i \in 1..Len(c.ks) : p <= Len(src[i]) /\ src[i][p] = 1})
+                  res == [p \in 1..n |->
+                            CASE c.op = "bitopand" -> IF ones(p) = Len(c.ks) THEN 1 ELSE 0
+                              [] c.op = "bitopor" -> IF ones(p) > 0 THEN 1 ELSE 0
+                              [] c.op = "bitopxor" -> ones(p) % 2
+                              [] c.op = "bitopnot" -> 1 - ones(p)]
+              \* the destination is written afresh (any former value of any type and its TTL are gone);
+              \* an empty result removes it; the reply is the length of the result in bytes
+              IN IF n = 0 THEN Gone(c.dst, Ok(0)) ELSE New(c.dst, StrOfBits(res), 0, Ok(n \div 8))
+  ELSE
+  LET k == c.k
+      b == SBits(c.k)
+      n == Len(SBits(c.k)) \div 8 IN
+  IF ~Is(k, "str") THEN Same(WT) ELSE
+  CASE c.op = "setbit" ->     \* the string grows (zero bytes) up to the byte of the offset; the TTL stays
+         LET need == 8 * ((c.off \div 8) + 1)
+             ext == IF Len(b) >= need THEN b ELSE b \o [i \in 1..(need - Len(b)) |-> 0]
+         IN Res([ks EXCEPT ![k] = StrOfBits([ext EXCEPT ![c.off + 1] = c.bit])], exp, Ok(ext[c.off + 1]))
+    [] c.op = "getbit" -> Same(Ok(IF c.off + 1 <= Len(b) THEN b[c.off + 1] ELSE 0))
+    [] c.op = "bitcount" ->
+         Same(Ok(Cardinality({p \in 1..Len(b) : ((p - 1) \div 8) + 1 \in ByteRange(n, c.start, c.stop) /\ b[p] = 1})))
+    [] c.op = "bitpos" ->     \* (with start and end given: no such bit in the range -> -1)
+         IF T(k) = "none" THEN Same(Ok(IF c.bit = 1 THEN 0 - 1 ELSE 0))
+         ELSE LET P == {p \in 1..Len(b) : ((p - 1) \div 8) + 1 \in ByteRange(n, c.start, c.stop) /\ b[p] = c.bit}
+              IN Same(Ok(IF P = {} THEN 0 - 1 ELSE MinOf(P) - 1))
+
+(* ----------------------------------------------------------- HyperLogLog *)
+\* Model: the exact set of added elements.  PFADD answers whether the HyperLogLog was altered: the key
+\* was created or an element is new (for the small sets of the model every new element alters a register).
+HllStep(c) ==
+  CASE c.op = "pfadd" ->
+         IF ~Is(c.k, "hll") THEN Same(WT)
+         ELSE Res([ks EXCEPT ![c.k] = Hll(PF(c.k) \cup Range(c.es), PFCounted(c.k))], exp,
+                  Ok(T(c.k) = "none" \/ Range(c.es) \ PF(c.k) # {}))
+    [] c.op = "pfcount" -> IF ~Is(c.k, "hll") THEN Same(WT)
+                           ELSE IF T(c.k) = "none" THEN Same(Ok(0))
+                           ELSE Res([ks EXCEPT ![c.k] = Hll(PF(c.k), TRUE)], exp, Ok(Cardinality(PF(c.k))))
+    [] c.op = "pfmerge" ->     \* the destination keeps its own elements (and its TTL) and gains the sources'
+         IF ~Is(c.dst, "hll") \/ \E i \in 1..Len(c.ks) : ~Is(c.ks[i], "hll") THEN Same(WT)
+         ELSE Res([ks EXCEPT ![c.dst] = Hll(PF(c.dst) \cup UNION {PF(c.ks[i]) : i \in 1..Len(c.ks)}, PFCounted(c.dst))], exp, Ok(0))
+
+(* ----------------------------------------------------------- scripts *)
+\* Three fixed scripts, each a wrapper around one command on KEYS[1]:
+\*   sget   return redis.call('GET', KEYS[1])
+\*   sset   return redis.call('SET', KEYS[1], ARGV[1])
+\*   sincr  return redis.call('INCRBY', KEYS[1], ARGV[1])
+\* Reply conversion (Lua -> RESP -> go-redis Cmd.Result()): integer -> int64, bulk -> string, status -> its
+\* text ("OK"), Lua false (GET of an absent key) -> nil reply -> the error redis.Nil; an error raised by
+\* redis.call fails the script with an error that names the cause (WRONGTYPE / not an integer).
+\* EVALSHA of a script that the server does not have cached: NOSCRIPT.  EVAL and SCRIPT LOAD cache the script.
+ScriptInner(c) ==
+  CASE c.s = "sget" -> [op |-> "get", k |-> c.k]
+    [] c.s = "sset" -> [op |-> "set", k |-> c.k, v |-> c.v]
+    [] c.s = "sincr" -> [op |-> "incrby", k |-> c.k, n |-> c.n]
+
+ScriptStep(c) ==
+  IF c.op = "scriptload" THEN Same(Ok(Scripts[c.s].sha))
+  ELSE IF c.op = "evalsha" /\ scr[c.s] = "none" THEN Same(NoScript)
+  ELSE LET res == StrStep(ScriptInner(c)) IN
+       CASE c.s = "sget" -> IF T(c.k) = "none" THEN Same(NilErr) ELSE res
+         [] c.s = "sset" -> [res EXCEPT !.r = Ok("OK")]
+         [] c.s = "sincr" -> res
+
+\* the script cache after command c with reply r
+ScrAfter(c, r) ==
+  CASE c.op = "scriptload" -> [scr EXCEPT ![c.s] = "loaded"]
+    [] c.op = "eval" -> IF scr[c.s] = "loaded" THEN scr
+                        ELSE [scr EXCEPT ![c.s] = IF r.err \in {"", "nil"} THEN "loaded" ELSE "evalfail"]
+    [] OTHER -> scr
+
+(* ----------------------------------------------------------- the scan family *)
+\* One step = one complete iteration: the caller starts with cursor 0 and calls again with the cursor it
+\* was given until it is given 0.  Redis guarantees that every element that is present during the whole
+\* iteration is returned at least once (and none that never was there); how the elements are spread over
+\* the calls is the server's choice, so the reply is the SET of all elements returned.  c.match = "" asks
+\* for everything, any other value is a pattern without wildcards (matches exactly that name).
+Matches(p, x) == p = "" \/ p = x
+ScanStep(c) ==
+  CASE c.op = "scanall" -> Same(Ok({k \in Keys : T(k) # "none" /\ Matches(c.match, k)}))
+    [] c.op = "sscanall" -> IF ~Is(c.k, "set") THEN Same(WT) ELSE Same(Ok({m \in S(c.k) : Matches(c.match, m)}))
+    [] c.op = "hscanall" -> IF ~Is(c.k, "hash") THEN Same(WT)
+                            ELSE Same(Ok({[f |-> f, v |-> H(c.k)[f]] : f \in {g \in Fields(H(c.k)) : Matches(c.match, g)}}))
+
 StrOps  == {"get", "set", "setex", "setnx", "setnxex", "getset", "incrby"}
+BitOps  == {"setbit", "getbit", "bitcount", "bitpos", "bitopand", "bitopor", "bitopxor", "bitopnot"}
+HllOps  == {"pfadd", "pfcount", "pfmerge"}
+ScriptOps == {"eval", "evalsha", "scriptload"}
+ScanOps == {"scanall", "sscanall", "hscanall"}
 KeyOps  == {"mget", "del", "exists", "expire", "expireat", "persist", "ttl", "keys"}
 HashOps == {"hset", "hsetnx", "hget", "hmget", "hmset", "hgetall", "hkeys", "hvals", "hlen", "hdel", "hexists", "hincrby"}
 ListOps == {"lpush", "rpush", "lpop", "rpop", "llen", "lindex", "lrange", "lrem", "ltrim"}
@@ -288,15 +435,66 @@ Step(c) ==
     [] c.op \in ListOps -> ListStep(c)
     [] c.op \in SetOps -> SetStep(c)
     [] c.op \in ZOps -> ZStep(c)
+    [] c.op \in BitOps -> BitStep(c)
+    [] c.op \in HllOps -> HllStep(c)
+    [] c.op \in ScriptOps -> ScriptStep(c)
+    [] c.op \in ScanOps -> ScanStep(c)
 
 \* Named deviation of the environment: Redis deletes the destination of SUNIONSTORE / SINTERSTORE /
 \* SDIFFSTORE / ZUNIONSTORE when the result is empty; miniredis 2.23.1 keeps an empty key (and panics on
 \* a later SADD to it).  The model follows Redis; such commands are not offered to the replay.
 MiniredisKeepsEmptyDestination == TRUE
 
+\* Named deviation of the environment: Redis' BITOP writes its destination afresh (setKey: the TTL of a former
+\* value is gone); miniredis 2.23.1 keeps the destination's TTL.  The model follows Redis; BITOP into a key
+\* that carries a TTL is not offered to the replay.
+MiniredisBitopKeepsDestinationTTL == TRUE
+
+\* Named deviation of the environment: in Redis a HyperLogLog is a string value (TYPE string; GET, SETBIT,
+\* BITCOUNT, ... act on its bytes; the PF commands answer WRONGTYPE for a string that is no HyperLogLog); in
+\* miniredis 2.23.1 it is a type of its own and every string command on it answers WRONGTYPE.  The model keeps
+\* the HyperLogLog apart (type "hll": PF commands on any other type and non-string commands on it answer
+\* WRONGTYPE in both worlds); commands that read a HyperLogLog key as a string are not offered.
+MiniredisHllIsATypeOfItsOwn == TRUE
+ReadsAsString(c) ==     \* the keys whose value command c reads as a string
+  CASE c.op \in {"get", "getset", "setnx", "setnxex", "incrby", "setbit", "getbit", "bitcount", "bitpos"} -> {c.k}
+    [] c.op \in {"mget", "bitopand", "bitopor", "bitopxor", "bitopnot"} -> Range(c.ks)
+    [] c.op \in {"eval", "evalsha"} -> IF c.s = "sset" THEN {} ELSE {c.k}
+    [] OTHER -> {}
+
+\* Named deviation of the environment: Redis' PFADD answers 1 iff a register of the HyperLogLog changed (or the
+\* key was created); miniredis 2.23.1 answers 1 iff an element is not in the sketch's buffer of recent additions,
+\* which a PFCOUNT empties - so after a PFCOUNT a PFADD of known elements answers 1.  The model follows Redis;
+\* PFADD of nothing but known elements to a key that has been counted is not offered.
+MiniredisPfaddReportsKnownElementsAfterCount == TRUE
+
+\* Named deviation of the environment: Redis caches the script of an EVAL as soon as it compiles, miniredis
+\* 2.23.1 only when the run did not raise an error.  The model follows Redis (cache state "evalfail" = known to
+\* Redis, unknown to miniredis); EVALSHA of a script in that state is not offered.
+MiniredisCachesOnlySuccessfulEval == TRUE
+
+\* Named deviation between Redis versions: BITCOUNT key start end with both indices negative and start > end
+\* answers 0 from Redis 7.0 on and is clamped like every other range before; such ranges are not offered.
+RedisVersionsDifferOnInvertedNegativeRange(c) == c.start < 0 /\ c.stop < 0 /\ c.start > c.stop
+
+\* Named deviations of the environment in the scan family (miniredis 2.23.1): SCAN and HSCAN ignore COUNT,
+\* return everything for cursor 0 together with the next cursor 0 and nothing for any other cursor; SSCAN
+\* pages by COUNT with the offset as cursor.  A complete iteration (the model's step) is the same in all
+\* cases; the passing of a non-zero cursor is therefore exercised through SSCAN only.
+MiniredisScanAndHScanAnswerInOneCall == TRUE
+
 \* commands whose result would leave the modelled value domain are not offered
-Offered(c) ==
-  CASE c.op = "incrby" -> (T(c.k) = "str" /\ IsNum(ks[c.k].s)) => (IntOf[ks[c.k].s] + c.n \in (0 - R)..R)
+IncrInRange(k, n) == /\ (T(k) = "str" /\ IsNumV(ks[k])) => (IntOf[ks[k].s] + n \in (0 - R)..R)
+                     /\ (T(k) = "str") => ~MaybeIntBin(ks[k])
+
+OfferedOp(c) ==
+  CASE c.op = "incrby" -> IncrInRange(c.k, c.n)
+    [] c.op \in {"eval", "evalsha"} ->
+         /\ (c.s = "sincr" => IncrInRange(c.k, c.n))
+         /\ (c.op = "evalsha" /\ MiniredisCachesOnlySuccessfulEval => scr[c.s] # "evalfail")
+    [] c.op \in {"bitopand", "bitopor", "bitopxor", "bitopnot"} -> MiniredisBitopKeepsDestinationTTL => exp[c.dst] = 0
+    [] c.op \in {"bitcount", "bitpos"} -> ~RedisVersionsDifferOnInvertedNegativeRange(c)
+    [] c.op = "pfadd" -> MiniredisPfaddReportsKnownElementsAfterCount => ~(PFCounted(c.k) /\ Range(c.es) \subseteq PF(c.k))
     [] c.op = "hincrby" -> (T(c.k) = "hash" /\ IsNum(H(c.k)[c.f])) => (IntOf[H(c.k)[c.f]] + c.n \in (0 - R)..R)
     [] c.op = "zincrby" -> (T(c.k) = "zset" /\ Z(c.k)[c.m] # NoScore) => (Z(c.k)[c.m] + c.n \in (0 - R)..R)
     [] c.op \in {"lpush", "rpush"} -> Len(L(c.k)) + Len(c.vs) <= MaxList
@@ -308,12 +506,17 @@ Offered(c) ==
          MiniredisKeepsEmptyDestination => Step(c).r.v # 0
     [] OTHER -> TRUE
 
+Offered(c) ==
+  /\ (MiniredisHllIsATypeOfItsOwn => \A k \in ReadsAsString(c) : T(k) # "hll")
+  /\ OfferedOp(c)
+
 (* ----------------------------------------------------------- actions *)
 Init ==
   /\ ks = [k \in Keys |-> None]
   /\ exp = [k \in Keys |-> 0]
   /\ clock = 0
   /\ pipe = NoPipe
+  /\ scr = [s \in ScriptNames |-> "none"]
   /\ out = [c |-> [op |-> "init"], r |-> Ok(0)]
 
 Do(c) ==
@@ -324,6 +527,7 @@ Do(c) ==
         /\ ks' = res.ks
         /\ exp' = res.exp
         /\ out' = [c |-> c, r |-> res.r]
+        /\ scr' = ScrAfter(c, res.r)
   /\ UNCHANGED <<clock, pipe>>
 
 \* The Ctx form of a method called with a context that is already cancelled ("canceled") or whose
@@ -359,11 +563,11 @@ PipeDo(c, len, room) ==
            /\ exp' = res.exp
            /\ out' = [c |-> c.c, r |-> r, p |-> [i |-> of - left, n |-> of, perr |-> ferr]]
            /\ pipe' = IF left = 0 THEN NoPipe ELSE [n |-> left, of |-> of, err |-> ferr]
-  /\ UNCHANGED clock
+  /\ UNCHANGED <<clock, scr>>
 
 Advance(d) ==
   /\ pipe.n = 0
-  /\ UNCHANGED pipe
+  /\ UNCHANGED <<pipe, scr>>
   /\ clock' = clock + d
   /\ ks' = [k \in Keys |-> IF exp[k] # 0 /\ exp[k] <= clock + d THEN None ELSE ks[k]]
   /\ exp' = [k \in Keys |-> IF exp[k] # 0 /\ exp[k] <= clock + d THEN 0 ELSE exp[k]]
@@ -373,6 +577,7 @@ Advance(d) ==
 KSeqs == {<<k>> : k \in Keys} \cup {p \in Keys \X Keys : p[1] # p[2]}
 MSeqs == {<<m>> : m \in Members} \cup {p \in Members \X Members : p[1] # p[2]}
 VSeqs == {<<v>> : v \in VS} \cup {<<v1, v2>> : v1 \in VS, v2 \in VS}
+ESeqs == {<<e>> : e \in HE} \cup {p \in HE \X HE : p[1] # p[2]}
 M1 == Mem[1]
 M2 == Mem[Len(Mem)]
 
@@ -425,6 +630,28 @@ Cmds(fam) ==
          \cup {[op |-> o, k |-> k, start |-> a, stop |-> b] :
                   o \in {"zrange", "zrevrange", "zrangews", "zrevrangews", "zremrangebyrank"}, k \in Keys, a \in IdxS, b \in IdxS}
          \cup {[op |-> "zunionstore", dst |-> d, ks |-> kk] : d \in Keys, kk \in KSeqs}
+    [] fam = "bit" ->
+         {[op |-> "setbit", k |-> k, off |-> o, bit |-> b] : k \in Keys, o \in BitOffS, b \in {0, 1}}
+         \cup {[op |-> "getbit", k |-> k, off |-> o] : k \in Keys, o \in BitOffS}
+         \cup {[op |-> "bitcount", k |-> k, start |-> a, stop |-> b] : k \in Keys, a \in ByteIdxS, b \in ByteIdxS}
+         \cup {[op |-> "bitpos", k |-> k, bit |-> x, start |-> a, stop |-> b] : k \in Keys, x \in {0, 1}, a \in ByteIdxS, b \in ByteIdxS}
+         \cup {[op |-> o, dst |-> d, ks |-> kk] : o \in {"bitopand", "bitopor", "bitopxor"}, d \in Keys, kk \in KSeqs}
+         \cup {[op |-> "bitopnot", dst |-> d, ks |-> <<k>>] : d \in Keys, k \in Keys}
+    [] fam = "hll" ->
+         {[op |-> "pfadd", k |-> k, es |-> es] : k \in Keys, es \in ESeqs}
+         \cup {[op |-> "pfcount", k |-> k] : k \in Keys}
+         \cup {[op |-> "pfmerge", dst |-> d, ks |-> kk] : d \in Keys, kk \in KSeqs}
+    [] fam = "script" ->
+         {[op |-> o, s |-> "sget", src |-> Scripts["sget"].src, sha |-> Scripts["sget"].sha, k |-> k] :
+              o \in {"eval", "evalsha"}, k \in Keys}
+         \cup {[op |-> o, s |-> "sset", src |-> Scripts["sset"].src, sha |-> Scripts["sset"].sha, k |-> k, v |-> v] :
+              o \in {"eval", "evalsha"}, k \in Keys, v \in VS}
+         \cup {[op |-> o, s |-> "sincr", src |-> Scripts["sincr"].src, sha |-> Scripts["sincr"].sha, k |-> k, n |-> n] :
+              o \in {"eval", "evalsha"}, k \in Keys, n \in NS}
+         \cup {[op |-> "scriptload", s |-> n, src |-> Scripts[n].src] : n \in ScriptNames}
+    [] fam = "scan" ->
+         {[op |-> "scanall", match |-> p, cnt |-> n] : p \in {""} \cup Keys, n \in CountS}
+         \cup {[op |-> o, k |-> k, match |-> p, cnt |-> n] : o \in {"sscanall", "hscanall"}, k \in Keys, p \in {"", M1}, n \in CountS}
     [] fam = "pipe" ->    \* commands that may be queued in a pipeline
          {[op |-> "p", c |-> q] : q \in
             {[op |-> o, k |-> k] : o \in {"get", "lpop", "scard", "exists", "llen"}, k \in Keys}
@@ -438,7 +665,9 @@ Cmds(fam) ==
             \cup {[op |-> "zadd", form |-> "zadd", k |-> k, s |-> sc, m |-> M1] : k \in Keys, sc \in {CHOOSE x \in ScoreS : TRUE}}
             \cup {[op |-> "zscore", k |-> k, m |-> M1] : k \in Keys}}
 
-NotInStore == {"mget", "keys", "sunion", "sinter", "sdiff", "sunionstore", "sinterstore", "sdiffstore", "zunionstore"}
+NotInStore == {"mget", "keys", "sunion", "sinter", "sdiff", "sunionstore", "sinterstore", "sdiffstore", "zunionstore",
+               "bitcount", "bitpos", "bitopand", "bitopor", "bitopxor", "bitopnot", "pfmerge", "evalsha", "scriptload",
+               "scanall", "hscanall"}
 AllCmds == {c \in UNION {Cmds(f) : f \in Fams} :
               KVOnly => (c.op \notin NotInStore \cup {"p"} /\ (c.op = "hdel" => Len(c.fs) = 1))}
 PlainCmds == {c \in AllCmds : c.op # "p"}
@@ -460,16 +689,32 @@ Spec == Init /\ [][Next]_vars
 (* ----------------------------------------------------------- sanity invariants *)
 TypeOK ==
   /\ \A k \in Keys :
-       /\ ks[k].t \in {"none", "str", "hash", "list", "set", "zset"}
+       /\ ks[k].t \in {"none", "str", "hash", "list", "set", "zset", "hll"}
+       /\ (ks[k].t = "hll" => ks[k].m \subseteq HE)
+       \* a string is a text of the domain or whole bytes that spell no such text (normal form)
+       /\ (ks[k].t = "str" => IF IsBin(ks[k]) THEN /\ Len(ks[k].b) % 8 = 0 /\ Len(ks[k].b) > 0
+                                                   /\ \A s \in TextDom : BitsOf[s] # ks[k].b
+                              ELSE ks[k].s \in TextDom)
        /\ ~IsEmpty(ks[k])                                      \* empty aggregates do not exist
        /\ (ks[k].t = "none" => exp[k] = 0)                     \* only live keys have a TTL
        /\ (exp[k] # 0 => exp[k] > clock)                       \* expired keys are gone
        /\ (ks[k].t = "list" => Len(ks[k].l) <= MaxList)
   /\ pipe.n \in 0..4 /\ pipe.n <= pipe.of
+  /\ scr \in [ScriptNames -> {"none", "loaded", "evalfail"}]
 
 \* a reply never reports a type error for a key of the right type or an absent key
 WrongTypeOnlyOnTypeClash ==
   (out.r.err = "wrongtype") => \E k \in Keys : ks[k].t # "none"
+
+\* a bit that was just written reads back; writing never shortens the string
+SetBitSticks ==
+  (out.c.op = "setbit" /\ out.r.err = "") =>
+     /\ out.c.off + 1 <= Len(SBits(out.c.k))
+     /\ SBits(out.c.k)[out.c.off + 1] = out.c.bit
+
+\* a script that the server was asked to load, or ran without error, can be called by its SHA-1
+LoadedScriptIsCallable ==
+  (out.c.op \in {"scriptload", "eval"} /\ out.r.err \in {"", "nil"}) => scr[out.c.s] = "loaded"
 
 \* TTL semantics: a key with expiry e is present exactly until the clock reaches e
 TTLSemantics ==
